@@ -319,6 +319,13 @@ Fixpoint lookup_template (id : string) (env : tenv) : option template_info :=
 
 (* ---- pass 1: anonymous components ---------------------------------------- *)
 
+(* `matches!(declaration, Statement::Declaration { dimensions, .. } if dimensions.iter().any(|d|
+   matches!(d, Expression::Variable { name, .. } if *name == id_var_while)))` *)
+Definition dim_is_counter (k : string) (e : expression) : bool :=
+  match e with Variable_ _ n _ => String.eqb n k | _ => false end.
+Definition decl_uses_counter (k : string) (s : statement) : bool :=
+  match s with Declaration _ _ _ dims _ => existsb (dim_is_counter k) dims | _ => false end.
+
 Notation rae_result := (dres (list statement * list statement * expression)).
 
 Fixpoint position (name : string) (names : list string) : option nat :=
@@ -517,14 +524,16 @@ Section Pass1.
         id_var_while <- gen_name lib "anon_var" m ;;
         let var_access := Variable_ m id_var_while [] in
         '(new_stmt, new_declarations) <- remove_anonymous_from_statement (Some var_access) body ;;
-        if negb (is_nil new_declarations) then
+        (* fix f58b98e: the counter is declared only when a component array of this loop's own
+           body is dimensioned by it; the declarations of nested loops travel up unchanged *)
+        if existsb (decl_uses_counter id_var_while) new_declarations then
           let declarations :=
             [build_declaration m VVar id_var_while [];
              Substitution m id_var_while [] AssignVar (Number m 0)] ++ new_declarations in
           let next_access := InfixOp m var_access IAdd (Number m 1) in
           let subs_access := Substitution m id_var_while [] AssignVar next_access in
           DOk (While m cond (Block m [new_stmt; subs_access]), declarations)
-        else DOk (While m cond new_stmt, [])
+        else DOk (While m cond new_stmt, new_declarations)
     | LogCall m args =>
         if existsb (log_arg_contains is_anonymous_component) args
         then fail RCAnonymousComponentError m MAnonLog
